@@ -208,12 +208,17 @@ def run(ctx):
                 except sqlite3.Error as e:
                     ctx.violation('sqlite-readback', 'sqlite3 cannot read the rendered literal: %s' % e,
                                   {'value': value, 'literal': lit}, pin=(key, 'error'))
-    path_ = ctx.work / 'c07traces.json'
-    dump_json(path_, traces)
-    tr = ctx.tlc('LexemeTrace', env={'VERIF_TRACES': path_}, name='lexeme_trace', timeout=3000)
-    if not tr.ok:
-        raise MachineryError('LexemeTrace failed: %s' % tr.errors[:3])
-    ver = {x[0]: x[1] for x in tr.prints('ACC')}
+    ver = {}
+    TB = 150000        # validated in batches (one JSON document of all renderings is too large in the thorough tier)
+    for b0 in range(0, len(traces), TB):
+        path_ = ctx.work / ('c07traces_%d.json' % (b0 // TB))
+        dump_json(path_, traces[b0:b0 + TB])
+        tr = ctx.tlc('LexemeTrace', env={'VERIF_TRACES': path_}, name='lexeme_trace' + ('_%d' % (b0 // TB) if b0 else ''), timeout=3000)
+        if not tr.ok:
+            raise MachineryError('LexemeTrace failed: %s' % tr.errors[:3])
+        for x in tr.prints('ACC'):
+            ver[b0 + x[0]] = x[1]
+        path_.unlink()
     if len(ver) != len(traces):
         raise MachineryError('LexemeTrace judged %d of %d' % (len(ver), len(traces)))
     for i, (value, path, pos, lit, key) in enumerate(meta):
